@@ -310,7 +310,11 @@ def rollback(ctx, f, lm, cfg):
                  "exit hook registered iff the transition happened and the context has an entry", not mism and ncon >= 3 and bool(stores), cfg)
     if mism or ncon < 3 or not stores:
         ctx.violation("C03.rollback", "C03.rollback|registers", "the probe's rollback hook is not registered exactly when the breaker half-opens for an entry: %s" % (mism[:1] or "registration not found"), b.loc(), config=cfg)
-    hooks = [c for c in f.closures_of(b) if any(s["body"].path == c.path for s in state_stores(f))]
+    # (the closure may be written in a private helper that the view inlined)
+    owners = [b] + [f.bodies[p] for p in getattr(b, "inlined", []) if p in f.bodies and f.bodies[p].kind != "Closure"]
+    hooks = []
+    for o in owners:
+        hooks += [c for c in f.closures_of(o) if c not in hooks and any(s["body"].path == c.path for s in state_stores(f))]
     if not ctx.floor("C03.rollback", "exit hook closure storing the state", len(hooks), 1):
         return
     h = hooks[0]
